@@ -1,5 +1,57 @@
+import Bxh.Model.Persist
 import Bxh.Model.Chain
+/-!
+# C11 — the ledger recovers to a consistent height after a crash at any persist point
+-/
 namespace Bxh.Props.C11
-open Bxh Bxh.Chain
-theorem placeholder_true : True := trivial
+open Bxh.Persist
+
+/-- Full-strength clause: whatever subset/prefix of the durable writes of one block commit reached
+the disk, the ledger recovers -/
+def C11_always_recovers : Prop := ∀ (h : Nat) (m : Mask), 1 ≤ h → m.b ≤ 5 → recoverOK h (recover h m)
+
+/-- **exact characterisation**: recovery works if and only if either everything of the commit
+is durable, or neither the chain-index batch nor the complete blockfile append is -/
+theorem C11_recover_iff (h : Nat) (m : Mask) (hh : 1 ≤ h) (hb : m.b ≤ 5) :
+    recoverOK h (recover h m) ↔ Good m := by
+  obtain ⟨s, c, b⟩ := m
+  simp only at hb
+  have h1 : h - 1 < h := by omega
+  have h2 : ¬ h < h - 1 := by omega
+  have h3 : ¬ (h - 1 = h) := by omega
+  have h4 : ¬ (h = h - 1) := by omega
+  unfold recover recoverOK Good
+  by_cases hb5 : b ≥ 5
+  · have hnl : ¬ b < 5 := by omega
+    cases s <;> cases c <;> simp [hb5, hnl, h1, h2, h3, h4]
+  · have hlt : b < 5 := by omega
+    cases s <;> cases c <;> simp [hb5, hlt, h1, h2, h3, h4]
+
+/-- the three unrecoverable classes, each for every height -/
+theorem C11_state_behind_chain_index (h : Nat) (b : Nat) (hh : 1 ≤ h) :
+    recover h { s := false, c := true, b := b } = .openError := by
+  have h1 : h - 1 < h := by omega
+  unfold recover; simp [h1]
+
+theorem C11_blockfile_ahead (h : Nat) (s : Bool) (hh : 1 ≤ h) :
+    recover h { s := s, c := false, b := 5 } = .opened (h - 1) (h - 1) h := by
+  unfold recover; cases s <;> simp
+
+theorem C11_chain_index_ahead (h : Nat) (b : Nat) (hb : b < 5) :
+    recover h { s := true, c := true, b := b } = .opened h h (h - 1) := by
+  unfold recover
+  have : ¬ b ≥ 5 := by omega
+  simp [this]
+
+/-- the full clause is false of the code: counter-example (machine checked) -/
+theorem C11_always_recovers_false : ¬ C11_always_recovers := by
+  intro hall
+  have := hall 1 { s := false, c := true, b := 5 } (by omega) (by simp)
+  revert this
+  decide
+
+/-- non-vacuity: the fully durable commit and the fully lost commit both recover -/
+example : recoverOK 7 (recover 7 { s := true, c := true, b := 5 }) := by decide
+example : recoverOK 7 (recover 7 { s := false, c := false, b := 0 }) := by decide
+
 end Bxh.Props.C11
